@@ -37,21 +37,57 @@ Inductive mres := MOk (nbytes relocs : Z) | MErr (e : Z) | MStuck | MUnsupported
 Definition sext (bits v : Z) : Z := let m := v mod 2 ^ bits in if m <? 2 ^ (bits - 1) then m else m - 2 ^ bits.
 Definition is_int8 (v : Z) : bool := (-128 <=? v) && (v <=? 127).
 
+(* ---------------------------------------------------------------- the strict validator as it is on HEAD
+   C13's `validate` (Verif.X86Validate.ValidateModel) with the check that /repo 4824306 added inside the operand loop:
+   a physical vector register 16..31 on an instruction that has no EVEX encoding is refused (kInvalidPhysId) right after the
+   register passed the type / id-mask checks.  The adapter walks the operands in the loop's order with C13's own
+   `xlat_operand`; an error of the unmodified validator that comes earlier (instruction id, lock / rep stage, an earlier or the
+   same operand) wins.  When C13's model gains the check itself the adapter changes nothing. *)
+Fixpoint high_vec_scan (T : vtables) (x64 : bool) (avx : N) (evex : bool) (ops : list operand) : option N :=
+  match ops with
+  | [] => None
+  | ONone :: _ => None
+  | op :: rest =>
+    match xlat_operand T x64 false avx op with
+    | XErr _ => None
+    | XOk _ _ =>
+      match op with
+      | OReg rt id => if (16 <=? id)%N && (RT_Vec128 <=? rt)%N && (rt <=? RT_Vec512)%N && negb evex then Some E_InvalidPhysId
+                      else high_vec_scan T x64 avx evex rest
+      | _ => high_vec_scan T x64 avx evex rest
+      end
+    end
+  end.
+
+Definition validate_head (T : vtables) (zq x64 : bool) (inst : vinst) (ops : list operand) : N :=
+  let e := validate T zq x64 false inst ops in
+  if (vt_count T <=? vi_id inst)%N then e else
+  let '(iflags, avx, _, _) := nth (N.to_nat (vi_id inst)) (vt_inst T) (0, 0, 0, 0)%N in
+  if negb (lock_stage (vi_options inst) iflags (first_is_mem ops) =? E_Ok)%N then e else
+  if negb (rep_stage (vi_options inst) iflags =? E_Ok)%N then e else
+  match high_vec_scan T x64 avx (test iflags IF_Evex) ops with
+  | Some x => x
+  | None => e
+  end.
+
 Definition bind_l (o : option Z) (f : Z -> mres) : mres := match o with Some v => f v | None => MStuck end.
 
 (* EmitX86M prefixes + EmitModSib, transcribed branch by branch; `x64` selects the mode *)
 (* `absloc`: the code has a base address and the current section is .text (EmitterUtils::is_absolute_location);
    `cur`: offset of the instruction in its section (needed for the RIP-relative guess of base-less 64-bit addresses) *)
-Definition x86_add_mem_encode (x64 absloc : bool) (cur : Z) (m : memf) : mres :=
+(* `npp`: bytes of the mandatory prefix (66h) emitted before REX; `rexop`: the REX bits that come from the opcode word and the
+   options (`opcode.extract_rex(options)`: W = 8, a forced REX = 64, the "REX is invalid here" mark = 128); both are 0 for
+   `add r32, [mem]` *)
+Definition x86_modrm_mem_encode (x64 absloc : bool) (cur npp rexop : Z) (m : memf) : mres :=
   bind_l (lookup x86_mem_info_table (m_btype m + 32 * m_itype m)) (fun rm_info =>
   bind_l (lookup x86_segment_prefix_table (m_seg m)) (fun segp =>
   let nseg := if segp =? 0 then 0 else 1 in
   let nao := if Z.land rm_info (if x64 then 128 else 64) =? 0 then 0 else 1 in
   let rex0 := Z.lor (Z.lor (Z.land (Z.shiftr (m_bid m) 3) 1) (Z.land (Z.shiftr (m_iid m) 2) 2)) (Z.land (Z.shiftr (m_dst m) 1) 4) in
-  let rex1 := Z.lor (Z.land rex0 rm_info) (if x64 then 0 else 128) in
+  let rex1 := Z.lor (Z.lor (Z.land rex0 rm_info) rexop) (if x64 then 0 else 128) in
   if 128 <? rex1 then MErr kInvalidRexPrefix else
   let nrex := if Z.land rex1 127 =? 0 then 0 else 1 in
-  let pre := nseg + nao + nrex + 1 in
+  let pre := nseg + nao + npp + nrex + 1 in
   let opreg := Z.land (m_dst m) 7 in
   let rel := sext 32 (m_off m) in
   let has_base := negb (Z.land rm_info 1 =? 0) in
@@ -105,10 +141,12 @@ Definition x86_add_mem_encode (x64 absloc : bool) (cur : Z) (m : memf) : mres :=
     else if lbl_or_rip then MErr kInvalidAddress
     else MOk (pre + 3) 0)).
 
+Definition x86_add_mem_encode (x64 absloc : bool) (cur : Z) (m : memf) : mres := x86_modrm_mem_encode x64 absloc cur 0 0 m.
+
 (* strict validation first (C13's model over C13's generated tables) *)
 Definition validate_add_mem (x64 : bool) (add_id : Z) (m : memf) : Z :=
   let off := if m_btype m =? 0 then sext 64 (m_off m) else sext 32 (m_off m) in
-  Z.of_N (validate x86_vtables false x64 false
+  Z.of_N (validate_head x86_vtables false x64
             {| vi_id := Z.to_N add_id; vi_options := 0%N; vi_extra_type := 0%N; vi_extra_id := 0%N |}
             [OReg RT_Gp32 (Z.to_N (m_dst m));
              OMem (Z.to_N (m_size m)) (Z.to_N (m_btype m)) (Z.to_N (m_bid m)) (Z.to_N (m_itype m)) (Z.to_N (m_iid m)) off
@@ -162,7 +200,7 @@ Definition x86_vgather_encode (x64 : bool) (v : vsibf) : mres :=
 Definition validate_vgather (x64 : bool) (inst_id : Z) (v : vsibf) : Z :=
   let m := v_mem v in
   let off := if m_btype m =? 0 then sext 64 (m_off m) else sext 32 (m_off m) in
-  Z.of_N (validate x86_vtables false x64 false
+  Z.of_N (validate_head x86_vtables false x64
             {| vi_id := Z.to_N inst_id; vi_options := 0%N; vi_extra_type := 0%N; vi_extra_id := 0%N |}
             [OReg (Z.to_N (v_type v)) (Z.to_N (v_dst v));
              OMem (Z.to_N (m_size m)) (Z.to_N (m_btype m)) (Z.to_N (m_bid m)) (Z.to_N (m_itype m)) (Z.to_N (m_iid m)) off
@@ -199,7 +237,7 @@ Definition x86_pushpop_sreg_encode (is_pop : bool) (id : Z) : mres :=
   MOk (mm_size + 1) 0)).
 
 Definition validate_pushpop_sreg (x64 : bool) (inst_id id : Z) : Z :=
-  Z.of_N (validate x86_vtables false x64 false
+  Z.of_N (validate_head x86_vtables false x64
             {| vi_id := Z.to_N inst_id; vi_options := 0%N; vi_extra_type := 0%N; vi_extra_id := 0%N |}
             [OReg (Z.to_N kRegTypeSegment) (Z.to_N id)]).
 
@@ -276,6 +314,10 @@ Definition a64_ldst_row_at (id : Z) : rowres :=
   RRow (mkLdSt allowed us lit allowed2 hi2 sh2 pp2)))))))))))).
 Definition a64_ldst_row (inst_id : Z) : rowres := a64_ldst_row_at (a64_norm_id inst_id).
 
+(* the scale of the unsigned-offset form: u_offset_shift, one more for the X form of the word/dword instructions *)
+Definition a64_imm_shift (r : ldst_row) (m : a64memf) : Z :=
+  l_ushift r + Z.land (a64_gp_x (l_allowed r) (a_rtype m)) (if l_ushift r =? 2 then 1 else 0).
+
 (* Case_BaseLdurStur, entered from the immediate arm (register base, no index) *)
 Definition a64_ldur_encode (r : ldst_row) (m : a64memf) : mres :=
   if negb (a64_gp_type_ok (l2_allowed r) (a_rtype m)) then MErr kInvalidInstruction else
@@ -325,6 +367,117 @@ Definition a64_ldst_cmd (inst_id : Z) (m : a64memf) : option cmd :=
   | MStuck | MUnsupported => None
   end.
 
+(* ---------------------------------------------------------------- a64: load / store pair (kEncodingBaseLdpStp)
+   ldp / stp / ldnp / stnp / ldpsw / stgp (Reg, Reg, Mem): both data registers of the allowed width and of ONE signature,
+   check_gp_id of both, a Gp64 base without index, the offset scaled by offset_shift + x exactly and inside simm7, write-back
+   only where the row has a pre/post opcode, EmitOp_MemBase_Rn5. *)
+Record a64pairf := mkA64Pair {
+  p_rtype0 : Z; p_rid0 : Z; p_rtype1 : Z; p_rid1 : Z;     (* the two data registers *)
+  p_btype : Z; p_bid : Z; p_itype : Z;                    (* base type / id, index type *)
+  p_mode : Z; p_off : Z }.                                (* offset mode, signed 32-bit offset *)
+
+Record ldp_row := mkLdp { lp_allowed : Z; lp_shift : Z; lp_prepost : Z }.
+Inductive prowres := PRow (r : ldp_row) | POther | PStuck.
+Definition bind_p (o : option Z) (f : Z -> prowres) : prowres := match o with Some v => f v | None => PStuck end.
+
+Definition a64_ldp_row_at (id : Z) : prowres :=
+  bind_p (lookup a64_inst_encoding id) (fun enc =>
+  if negb (enc =? a64c_encoding_base_ldpstp) then POther else
+  bind_p (lookup a64_inst_encoding_data_index id) (fun ei =>
+  bind_p (lookup a64_ldpstp_reg_type ei) (fun allowed =>
+  bind_p (lookup a64_ldpstp_offset_shift ei) (fun sh =>
+  bind_p (lookup a64_ldpstp_pre_post_op ei) (fun pp =>
+  PRow (mkLdp allowed sh pp)))))).
+Definition a64_ldp_row (inst_id : Z) : prowres := a64_ldp_row_at (a64_norm_id inst_id).
+
+Definition a64_ldp_encode_row (r : ldp_row) (m : a64pairf) : mres :=
+  if negb (a64_gp_type_ok (lp_allowed r) (p_rtype0 m)) || negb (p_rtype0 m =? p_rtype1 m) then MErr kInvalidInstruction else
+  if negb (a64_check_gp_id (p_rid0 m) a64c_zr) || negb (a64_check_gp_id (p_rid1 m) a64c_zr) then MErr kInvalidPhysId else
+  if negb (p_btype m =? a64c_reg_type_gp64) || negb (p_itype m =? 0) then MErr kInvalidAddress else
+  let sh := lp_shift r + a64_gp_x (lp_allowed r) (p_rtype0 m) in
+  let o32 := Z.shiftr (p_off m) sh in
+  if negb ((Z.shiftl o32 sh) mod 2 ^ 32 =? (p_off m) mod 2 ^ 32) then MErr kInvalidDisplacement else
+  if negb (is_int_n 7 o32) then MErr kInvalidDisplacement else
+  if negb (p_mode m =? 0) && (lp_prepost r =? 0) then MErr kInvalidAddress else
+  if p_bid m <=? 31 then MOk 4 0 else MErr kInvalidAddress.
+
+Definition a64_ldp (inst_id : Z) (m : a64pairf) : mres :=
+  match a64_ldp_row inst_id with
+  | PRow r => a64_ldp_encode_row r m
+  | POther => MUnsupported
+  | PStuck => MStuck
+  end.
+
+Definition a64_ldp_cmd (inst_id : Z) (m : a64pairf) : option cmd :=
+  match a64_ldp inst_id m with
+  | MOk n dr => Some (CInst (EncOk n None false dr 0 0))
+  | MErr e => Some (CInst (EncErr e))
+  | MStuck | MUnsupported => None
+  end.
+
+(* ---------------------------------------------------------------- a64: SIMD / FP load / store (kEncodingSimdLdSt)
+   ldr / str of a B/H/S/D/Q register (register types Vec8..Vec128, no element type or index), same addressing arms as
+   BaseLdSt with the access size xsz = type - Vec8 as scale, the ldur/stur fallback `Case_SimdLdurStur` through
+   _inst_info_table[u_alt_inst_id] and simdLdurStur[..]; vector ids 0..31. *)
+Definition kInvalidRegType := 27.
+Definition a64_simd_constants : list Z := [kInvalidRegType].
+Record a64vmemf := mkA64VMem { av_et : Z; av_ei : bool; av_mem : a64memf }.   (* element type, has-element-index, the rest *)
+
+Record simd_row := mkSimd { sl_literal : Z }.
+Inductive srowres := SRow (r : simd_row) | SOther | SStuck.
+Definition bind_sr (o : option Z) (f : Z -> srowres) : srowres := match o with Some v => f v | None => SStuck end.
+
+Definition a64_simd_row_at (id : Z) : srowres :=
+  bind_sr (lookup a64_inst_encoding id) (fun enc =>
+  if negb (enc =? a64c_encoding_simd_ldst) then SOther else
+  bind_sr (lookup a64_inst_encoding_data_index id) (fun ei =>
+  bind_sr (lookup a64_simdldst_literal_op ei) (fun lit =>
+  bind_sr (lookup a64_simdldst_u_alt_inst_id ei) (fun alt =>
+  bind_sr (lookup a64_inst_encoding_data_index alt) (fun ei2 =>     (* _inst_info_table[u_alt_inst_id], unguarded *)
+  bind_sr (lookup a64_simdldur_opcode ei2) (fun _ =>
+  SRow (mkSimd lit))))))).
+Definition a64_simd_row (inst_id : Z) : srowres := a64_simd_row_at (a64_norm_id inst_id).
+
+Definition a64_simd_encode_row (r : simd_row) (v : a64vmemf) : mres :=
+  let m := av_mem v in
+  let xsz := diff32 (a_rtype m) a64c_reg_type_vec8 in
+  if (4 <? xsz) || av_ei v || negb (av_et v =? 0) then MErr kInvalidRegType else
+  if 31 <? a_rid m then MErr kInvalidPhysId else
+  if negb (a64_check_mem_base_index_rel m) then MErr kInvalidAddress else
+  if a64c_reg_type_label_tag <? a_btype m then
+    if negb (a_itype m =? 0) then
+      bind_l (lookup a64_shift_op_to_ld_st_opt_map (a_shiftop m)) (fun opt =>
+      if opt =? 255 then MErr kInvalidAddress else
+      if negb (a_itype m =? (if Z.testbit opt 0 then a64c_reg_type_gp64 else a64c_reg_type_gp32)) || negb (a_mode m =? 0)
+      then MErr kInvalidAddress else
+      if negb (a_shift m =? 0) && negb (a_shift m =? xsz) then MErr kInvalidAddressScale else
+      a64_emit_mem_base_index m)
+    else
+      if negb (is_int_n 32 (a_off m)) then MErr kInvalidDisplacement else
+      if negb (a_mode m =? 0) then
+        if negb (is_int_n 9 (a_off m)) then MErr kInvalidDisplacement else a64_emit_mem_base m
+      else
+        let u := (a_off m) mod 2 ^ 32 in
+        let imm12 := Z.shiftr u xsz in
+        if (imm12 <? 4096) && ((Z.shiftl imm12 xsz) mod 2 ^ 32 =? u) then a64_emit_mem_base m
+        else if negb (is_int_n 9 (a_off m)) then MErr kInvalidDisplacement else a64_emit_mem_base m     (* Case_SimdLdurStur *)
+  else if sl_literal r =? 0 then MErr kInvalidAddress
+  else if xsz <? 2 then MErr kInvalidRegType else MUnsupported.
+
+Definition a64_simd_ldst (inst_id : Z) (v : a64vmemf) : mres :=
+  match a64_simd_row inst_id with
+  | SRow r => a64_simd_encode_row r v
+  | SOther => MUnsupported
+  | SStuck => MStuck
+  end.
+
+Definition a64_simd_ldst_cmd (inst_id : Z) (v : a64vmemf) : option cmd :=
+  match a64_simd_ldst inst_id v with
+  | MOk n dr => Some (CInst (EncOk n None false dr 0 0))
+  | MErr e => Some (CInst (EncErr e))
+  | MStuck | MUnsupported => None
+  end.
+
 (* ---------------------------------------------------------------- x86: shift / rotate of a register by an immediate
    kEncodingX86Rot (Reg, Imm): add_arith_by_size(size), FIXUP_GPB for byte registers, `imm & 0xFF`, the by-one short form
    unless kLongForm, then EmitX86R: emit_pp (opcode_pp_table[pp]), REX (extract_rex(options) | rb >> 3, is_rex_invalid),
@@ -332,17 +485,16 @@ Definition a64_ldst_cmd (inst_id : Z) (m : a64memf) : option cmd :=
    (C13's model) runs first. *)
 Record shiftf := mkShift { s_rtype : Z; s_rid : Z; s_size : Z; s_imm : Z }.
 
-(* Opcode::add_arith_by_size: `operator|=(mask[size & 0xF])`, a function-local table (transcribed; staleness-checked textually) *)
-Definition arith_by_size_mask (k : Z) : Z :=
-  if k =? 2 then Z.lor 1 x86c_opcode_pp_66 else if k =? 4 then 1 else if k =? 8 then Z.lor 1 x86c_opcode_w else 0.
+(* Opcode::add_arith_by_size: `operator|=(mask[size & 0xF])`; the function-local table is read from x86opcode_p.h by the translator *)
+Definition arith_by_size_mask (k : Z) : Z := match lookup x86_arith_by_size_mask k with Some v => v | None => 0 end.
 
 Inductive shrow := ShRow (npp mm_size opc : Z) | ShOther | ShStuck.
 Definition bind_s (o : option Z) (f : Z -> shrow) : shrow := match o with Some v => f v | None => ShStuck end.
 
 (* the table reads of one instruction id and one size class (size & 15) *)
-Definition x86_shift_row_at (id k : Z) : shrow :=
+Definition x86_legacy_row_at (enc_wanted id k : Z) : shrow :=
   bind_s (lookup x86_inst_encoding id) (fun enc =>
-  if negb (enc =? x86c_encoding_x86_rot) then ShOther else
+  if negb (enc =? enc_wanted) then ShOther else
   bind_s (lookup x86_inst_main_idx id) (fun mi =>
   bind_s (lookup x86_main_opcode_table mi) (fun opc0 =>
   let opc := Z.lor opc0 (arith_by_size_mask k) in
@@ -351,6 +503,7 @@ Definition x86_shift_row_at (id k : Z) : shrow :=
   bind_s (lookup x86_opcode_mm_table (Z.land (Z.shiftr opc x86c_mm_shift) x86c_mm_index_max)) (fun mm_size =>
   ShRow (if pp =? 0 then 0 else 1) mm_size opc))))).
 
+Definition x86_shift_row_at (id k : Z) : shrow := x86_legacy_row_at x86c_encoding_x86_rot id k.
 Definition x86_norm_id (inst_id : Z) : Z := if x86c_inst_id_count <=? inst_id then 0 else inst_id.
 
 Definition x86_shift_imm_encode (x64 long : bool) (inst_id : Z) (f : shiftf) : mres :=
@@ -372,7 +525,7 @@ Definition x86_shift_imm_encode (x64 long : bool) (inst_id : Z) (f : shiftf) : m
   end.
 
 Definition validate_shift_imm (x64 long : bool) (inst_id : Z) (f : shiftf) : Z :=
-  Z.of_N (validate x86_vtables false x64 false
+  Z.of_N (validate_head x86_vtables false x64
             {| vi_id := Z.to_N inst_id; vi_options := (if long then 32%N else 0%N); vi_extra_type := 0%N; vi_extra_id := 0%N |}
             [OReg (Z.to_N (s_rtype f)) (Z.to_N (s_rid f)); OImm (s_imm f)]).
 
@@ -387,13 +540,101 @@ Definition shift_cmd (a : arch) (s : state) (inst_id : Z) (f : shiftf) : option 
   | MStuck | MUnsupported => None
   end.
 
+(* ---------------------------------------------------------------- x86: mov r, [mem] / mov [mem], r with the moffs special form
+   kEncodingX86Mov (Reg, Mem) / (Mem, Reg) for general-purpose registers of every width: add_arith_by_size (66h / REX.W), the
+   accumulator + base-less address special case (`x86_should_use_movabs`: always in 32-bit mode; in 64-bit mode when neither a
+   RIP-relative nor a sign-extended 32-bit displacement reaches the address and it does not fit 32 bits) -> EmitX86OpMovAbs
+   (segment override, 66h, REX.W, A0..A3, 4- or 8-byte address), otherwise FIXUP_GPB and the ModRM path above (EmitX86M).
+   Options are 0 (the generator resets the one-shot state first); segment registers as data operand are MUnsupported. *)
+Record movf := mkMov { mv_rtype : Z; mv_rsize : Z; mv_store : bool; mv_mem : memf }.   (* mv_mem.m_dst is the register id *)
+
+Definition x86_use_movabs (x64 absloc : bool) (cur rsize : Z) (m : memf) : bool :=
+  if negb x64 then true else
+  if m_addr m =? 2 then false else
+  let addr := sext 64 (m_off m) in
+  let near :=
+    if (m_addr m =? 0) && (m_seg m =? 0) && absloc then
+      let isz := (if m_seg m =? 0 then 0 else 1) + (if rsize =? 2 then 1 else 0) + (if rsize =? 8 then 1 else 0) + 1 + 8 in
+      let rel := sext 64 (addr - (kBaseAddress + cur + isz)) in
+      rel =? sext 32 rel
+    else addr =? sext 32 addr in
+  if near then false else 2 ^ 32 <=? addr mod 2 ^ 64.
+
+Definition x86_mov_rm_encode (x64 absloc : bool) (cur : Z) (f : movf) : mres :=
+  let m := mv_mem f in
+  let id := m_dst m in
+  let rs := mv_rsize f in
+  if mv_rtype f =? kRegTypeSegment then MUnsupported else
+  let am := arith_by_size_mask (Z.land rs 15) in
+  let npp := if Z.land am x86c_opcode_pp_66 =? 0 then 0 else 1 in
+  let w := if Z.land am x86c_opcode_w =? 0 then 0 else 8 in
+  let hi := mv_rtype f =? x86c_reg_type_gp8hi in
+  if (id =? 0) && negb hi && (m_btype m =? 0) && (m_itype m =? 0) && x86_use_movabs x64 absloc cur rs m then
+    bind_l (lookup x86_segment_prefix_table (m_seg m)) (fun segp =>
+    let rex := Z.lor w (if x64 then 0 else 128) in
+    if 128 <? rex then MErr kInvalidRexPrefix else
+    MOk ((if segp =? 0 then 0 else 1) + npp + (if Z.land rex 127 =? 0 then 0 else 1) + 1 + (if x64 then 8 else 4)) 0)
+  else
+    let is8 := rs =? 1 in
+    let rexop := Z.lor w (if is8 then (if hi then 128 else if 4 <=? id then 64 else 0) else 0) in
+    let opreg := if is8 && hi then id + 4 else id in
+    x86_modrm_mem_encode x64 absloc cur npp rexop
+      (mkMem opreg (m_btype m) (m_bid m) (m_itype m) (m_iid m) (m_shift m) (m_seg m) (m_addr m) (m_size m) (m_off m)).
+
+Definition validate_mov_rm (x64 : bool) (inst_id : Z) (f : movf) : Z :=
+  let m := mv_mem f in
+  let off := if m_btype m =? 0 then sext 64 (m_off m) else sext 32 (m_off m) in
+  let r := OReg (Z.to_N (mv_rtype f)) (Z.to_N (m_dst m)) in
+  let mo := OMem (Z.to_N (m_size m)) (Z.to_N (m_btype m)) (Z.to_N (m_bid m)) (Z.to_N (m_itype m)) (Z.to_N (m_iid m)) off
+                 (Z.to_N (m_seg m)) 0%N false in
+  Z.of_N (validate_head x86_vtables false x64
+            {| vi_id := Z.to_N inst_id; vi_options := 0%N; vi_extra_type := 0%N; vi_extra_id := 0%N |}
+            (if mv_store f then [mo; r] else [r; mo])).
+
+(* the eight arithmetic instructions of kEncodingX86Arith (add or adc sbb and sub xor cmp) with (Reg, Mem) / (Mem, Reg): the
+   same ModRM path without the moffs special case; prefix bytes and REX.W come from the instruction's opcode word
+   (main_opcode_table through the instruction row) and add_arith_by_size *)
+Definition x86_arith_rm_encode (x64 absloc : bool) (cur inst_id : Z) (f : movf) : mres :=
+  let m := mv_mem f in
+  let id := m_dst m in
+  let rs := mv_rsize f in
+  match x86_legacy_row_at x86c_encoding_x86_arith (x86_norm_id inst_id) (Z.land rs 15) with
+  | ShStuck => MStuck
+  | ShOther => MUnsupported
+  | ShRow npp mm_size opc =>
+      if negb (mm_size =? 0) then MUnsupported else
+      let w := if Z.testbit opc x86c_w_shift then 8 else 0 in
+      let hi := mv_rtype f =? x86c_reg_type_gp8hi in
+      let is8 := rs =? 1 in
+      let rexop := Z.lor w (if is8 then (if hi then 128 else if 4 <=? id then 64 else 0) else 0) in
+      let opreg := if is8 && hi then id + 4 else id in
+      x86_modrm_mem_encode x64 absloc cur npp rexop
+        (mkMem opreg (m_btype m) (m_bid m) (m_itype m) (m_iid m) (m_shift m) (m_seg m) (m_addr m) (m_size m) (m_off m))
+  end.
+
+Definition x86_mov_rm (x64 absloc : bool) (cur inst_id : Z) (f : movf) : mres :=
+  let e := validate_mov_rm x64 inst_id f in
+  if inst_id =? x86c_id_mov then (if e =? 0 then x86_mov_rm_encode x64 absloc cur f else MErr e)
+  else if e =? 0 then x86_arith_rm_encode x64 absloc cur inst_id f else MErr e.
+
+Definition mov_cmd (a : arch) (has_base_address : bool) (s : state) (inst_id : Z) (f : movf) : option cmd :=
+  match x86_mov_rm (match a with X86_64 => true | _ => false end) (has_base_address && (st_cur s =? 0)) (cur_size s) inst_id f with
+  | MOk n dr => Some (CInst (EncOk n None false dr 0 0))
+  | MErr e => Some (CInst (EncErr e))
+  | MStuck | MUnsupported => None
+  end.
+
 (* ---------------------------------------------------------------- EVEX / VEX + VSIB: vgatherdps v {k}, [base + v*s + d]
    the two-operand (AVX-512) form of kEncodingVexRmvRm_VM with the mask in the emitter's extra register: EmitVexEvexM
    builds the prefix word `x`; EVEX is selected by `x & kEvexBits` (register ids >= 16 -> R' / X', LL = 2 (512-bit), the
    mask id aaa), then cdisp8_shl_table[TT|W|LL] gives the compressed-disp8 scale used by EmitModVSib.  The VEX branch
    (no EVEX bit) is computed too.  Options are 0 (the generator resets the one-shot state first). *)
-Definition kEvexBits := 2162131216.      (* 0x80DF8110 *)
+Definition kEvexBits := x86c_evex_bits_m.      (* read from EmitVexEvexM by the translator (0x80DF8110) *)
 Definition mod32 (v : Z) : Z := v mod 2 ^ 32.
+(* EmitModVSib / EmitModSib: the displacement goes into one byte when, shifted right by the compressed-displacement scale,
+   it fits int8 and no bit is lost (`rel_offset == int32_t(uint32_t(cd_offset) << cd_shift)`) *)
+Definition cdisp8_ok (rel cd : Z) : bool :=
+  let cdo := Z.shiftr rel cd in is_int8 cdo && (rel =? sext 32 (Z.shiftl (mod32 cdo) cd)).
 
 Definition x86_vgather2_encode (x64 : bool) (kid : Z) (v : vsibf) : mres :=
   let m := v_mem v in
@@ -421,8 +662,7 @@ Definition x86_vgather2_encode (x64 : bool) (kid : Z) (v : vsibf) : mres :=
   let tail (pre cd_shift : Z) : mres :=
     if negb (Z.land rm_info 1 =? 0) then
       if (rel =? 0) && negb (Z.land rb 7 =? 5) then MOk (pre + 2) 0 else
-      let cdo := Z.shiftr rel cd_shift in
-      if is_int8 cdo && (rel =? sext 32 (Z.shiftl (mod32 cdo) cd_shift)) then MOk (pre + 3) 0 else MOk (pre + 6) 0
+      if cdisp8_ok rel cd_shift then MOk (pre + 3) 0 else MOk (pre + 6) 0
     else if Z.land rm_info 48 =? 0 then MOk (pre + 6) 0
     else if x64 then MErr kInvalidAddress
     else MUnsupported in
@@ -439,7 +679,7 @@ Definition x86_vgather2_encode (x64 : bool) (kid : Z) (v : vsibf) : mres :=
 Definition validate_vgather2 (x64 : bool) (inst_id etype kid : Z) (v : vsibf) : Z :=
   let m := v_mem v in
   let off := if m_btype m =? 0 then sext 64 (m_off m) else sext 32 (m_off m) in
-  Z.of_N (validate x86_vtables false x64 false
+  Z.of_N (validate_head x86_vtables false x64
             {| vi_id := Z.to_N inst_id; vi_options := 0%N; vi_extra_type := Z.to_N etype; vi_extra_id := Z.to_N kid |}
             [OReg (Z.to_N (v_type v)) (Z.to_N (v_dst v));
              OMem (Z.to_N (m_size m)) (Z.to_N (m_btype m)) (Z.to_N (m_bid m)) (Z.to_N (m_itype m)) (Z.to_N (m_iid m)) off
@@ -456,6 +696,49 @@ Definition extra_type_of (sig : Z) : Z := if Z.land sig 7 =? 1 then Z.land (Z.sh
 Definition vsib2_cmd (a : arch) (s : state) (inst_id : Z) (v : vsibf) : option cmd :=
   let one := st_one s in
   match x86_vgather2 (match a with X86_64 => true | _ => false end) inst_id (extra_type_of (os_extra_sig one)) (os_extra_id one) v with
+  | MOk n dr => Some (CInst (EncOk n None false dr 0 0))
+  | MErr e => Some (CInst (EncErr e))
+  | MStuck | MUnsupported => None
+  end.
+
+(* ---------------------------------------------------------------- VEX / EVEX register form: vaddps v, v, v {k}
+   kEncodingVexRvm_Lx (Reg, Reg, Reg): opcode_l_by_size (ll_by_size_div_16_table[(size0 | size1) / 16]), op_reg =
+   dst + (src1 << 7), rb = src2, EmitVexEvexR: the prefix word `x`, EVEX when `x & kEvexBits` (ids >= 16, 512-bit, mask id),
+   else VEX3 when `x & 0x8000803E` (src2 >= 8: vex_prefix_table[x & 15] is read) else VEX2.  Lengths 4 / 5 / 6 bytes. *)
+Record vrrrf := mkVrrr { vr_t0 : Z; vr_d : Z; vr_t1 : Z; vr_s1 : Z; vr_t2 : Z; vr_s2 : Z; vr_size : Z }.   (* register types and ids; vr_size = size(op0) | size(op1) *)
+
+Definition x86_vrrr_encode (kid : Z) (f : vrrrf) : mres :=
+  if negb (x86c_vaddps_encoding_is_rvm_lx =? 1) || negb (x86c_vaddps_has_vex =? 1) || negb (x86c_vaddps_prefer_evex =? 0) then MUnsupported else
+  bind_l (lookup x86_inst_main_idx x86c_vaddps_id) (fun mi =>
+  bind_l (lookup x86_main_opcode_table mi) (fun opc0 =>
+  bind_l (lookup x86_ll_by_size_div_16_table (vr_size f / 16)) (fun ll_s =>
+  let opc := Z.lor opc0 ll_s in
+  let op_reg := mod32 (vr_d f + Z.shiftl (vr_s1 f) x86c_vvvvv_shift) in
+  let x := Z.lor (Z.land (Z.shiftl op_reg 4) 63872)
+          (Z.lor (Z.land (Z.shiftl (vr_s2 f) 2) 96)
+          (Z.lor (Z.shiftr (Z.land opc (x86c_ll_mask + x86c_mm_mask)) x86c_mm_shift)
+                 (mod32 (Z.shiftl kid 16)))) in
+  if negb (Z.land x x86c_evex_bits_r =? 0) then
+    if x86c_vaddps_has_evex =? 1 then MOk 6 0 else MErr kInvalidInstruction
+  else
+    let wbit := if Z.testbit opc x86c_w_shift then 32768 else 0 in
+    if negb (Z.land (Z.lor x wbit) (x86c_vex3_bits_r mod 2 ^ 31) =? 0) then     (* bit 31 is the {vex3} option, not set here *)
+      bind_l (lookup x86_vex_prefix_table (Z.land x 15)) (fun _ => MOk 5 0)
+    else MOk 4 0))).
+
+Definition validate_vrrr (x64 : bool) (inst_id etype kid : Z) (f : vrrrf) : Z :=
+  Z.of_N (validate_head x86_vtables false x64
+            {| vi_id := Z.to_N inst_id; vi_options := 0%N; vi_extra_type := Z.to_N etype; vi_extra_id := Z.to_N kid |}
+            [OReg (Z.to_N (vr_t0 f)) (Z.to_N (vr_d f)); OReg (Z.to_N (vr_t1 f)) (Z.to_N (vr_s1 f)); OReg (Z.to_N (vr_t2 f)) (Z.to_N (vr_s2 f))]).
+
+Definition x86_vrrr (x64 : bool) (inst_id etype kid : Z) (f : vrrrf) : mres :=
+  if negb (inst_id =? x86c_vaddps_id) then MUnsupported else
+  let e := validate_vrrr x64 inst_id etype kid f in
+  if e =? 0 then x86_vrrr_encode kid f else MErr e.
+
+Definition vrrr_cmd (a : arch) (s : state) (inst_id : Z) (f : vrrrf) : option cmd :=
+  let one := st_one s in
+  match x86_vrrr (match a with X86_64 => true | _ => false end) inst_id (extra_type_of (os_extra_sig one)) (os_extra_id one) f with
   | MOk n dr => Some (CInst (EncOk n None false dr 0 0))
   | MErr e => Some (CInst (EncErr e))
   | MStuck | MUnsupported => None
